@@ -633,7 +633,7 @@ Definition get_uid (v : pv) : res pv := match v with PEnt _ u => Ok (PUuid u) | 
 Fixpoint keys_distinct (ks : list pv) : bool :=
   match ks with
   | [] => true
-  | k :: r => negb (existsb (py_eq k) r) && keys_distinct r
+  | k :: r => negb (existsb (fun k2 => py_eq k k2 || py_eq k2 k) r) && keys_distinct r
   end.
 
 Fixpoint wf_pv (v : pv) : bool :=
